@@ -595,6 +595,7 @@ func (m *Manager) rotateWAL() error {
 			return fmt.Errorf("failed to sync old WAL: %w", err)
 		}
 	}
+	verifhook.At("sm.rotate.oldsafe")
 
 	// Create a new WAL first before closing the old one
 	newWAL, err := wal.NewWAL(m.cfg, m.walDir)
